@@ -544,6 +544,19 @@ impl wtransport::config::DnsResolver for FixedDns {
 
 // --------------------------------------------------------------------- setup
 
+/// Creating an endpoint can fail for reasons that have nothing to do with the code under
+/// test (a fixed port still in use): retry, then report a harness error (never a verdict).
+async fn retry_ep<T>(log: &Arc<Log>, what: &str, mut f: impl FnMut() -> std::io::Result<T>) -> Option<T> {
+    for _ in 0..40 {
+        match f() {
+            Ok(x) => return Some(x),
+            Err(_) => tokio::time::sleep(Duration::from_millis(100)).await,
+        }
+    }
+    log.emit("harness", "harness_error", fields! {"what" => what});
+    None
+}
+
 fn sut_server_config(cfg: &Value) -> ServerConfig {
     let id = Identity::self_signed(["localhost", "127.0.0.1", "::1"]).expect("identity");
     let port = u(cfg, "port", 0) as u16;
@@ -734,7 +747,7 @@ async fn setup(w: &mut World, scn: &Value) {
     w.cfg = cfg.clone();
     match (role.as_str(), peer.as_str()) {
         ("server", "raw") => {
-            let ep = Endpoint::server(sut_server_config(&cfg)).expect("server ep");
+            let Some(ep) = retry_ep(&w.log, "server endpoint", || Endpoint::server(sut_server_config(&cfg))).await else { return };
             let addr: SocketAddr = format!("127.0.0.1:{}", ep.local_addr().unwrap().port())
                 .parse()
                 .unwrap();
@@ -908,7 +921,7 @@ async fn setup(w: &mut World, scn: &Value) {
         }
         (_, "wt") => {
             // two wtransport endpoints: "app" has the scripted role, "app2" the other one
-            let sep = Endpoint::server(sut_server_config(&cfg)).expect("server ep");
+            let Some(sep) = retry_ep(&w.log, "server endpoint", || Endpoint::server(sut_server_config(&cfg))).await else { return };
             let addr: SocketAddr = format!("127.0.0.1:{}", sep.local_addr().unwrap().port())
                 .parse()
                 .unwrap();
@@ -1731,6 +1744,7 @@ pub fn run_file(path: &str, out: &str, threads: usize, par: usize) -> u64 {
     };
     rt.block_on(async {
         let sem = Arc::new(tokio::sync::Semaphore::new(par.max(1)));
+        let port_lock = Arc::new(tokio::sync::Mutex::new(()));
         let mut handles = Vec::new();
         for line in text.lines() {
             let line = line.trim();
@@ -1740,7 +1754,11 @@ pub fn run_file(path: &str, out: &str, threads: usize, par: usize) -> u64 {
             let scn: Value = serde_json::from_str(line).expect("scenario json");
             let permit = sem.clone().acquire_owned().await.unwrap();
             let log = log.clone();
+            let port_lock = port_lock.clone();
             handles.push(tokio::spawn(async move {
+                // scenarios that bind a fixed port run one at a time
+                let fixed = scn.get("cfg").map(|c| u(c, "port", 0) != 0).unwrap_or(false);
+                let _guard = if fixed { Some(port_lock.lock_owned().await) } else { None };
                 let name = s(&scn, "scn").to_string();
                 let l2 = log.clone();
                 let scn2 = scn.clone();
